@@ -19,6 +19,7 @@ func init() {
 		Assumptions: []string{"select chooses a ready case", "context.WithTimeout cancels at the deadline"},
 		Run:         runC09,
 		Controls: []Control{
+			{Name: "timeout-returns-the-nil-update-error", File: "pkg/resource/value.go", Old: "\t\treturn nil, errors.New(\"bus.Send blocked for too long\")\n\t}\n\n\treturn newValue, err", New: "\t\treturn nil, err\n\t}\n\n\treturn newValue, err", Expect: "R09.4"},
 			{Name: "backpressure-on-by-default", File: "pkg/resource/opt.go", Old: "\trr := &ReadRequest{}\n", New: "\trr := &ReadRequest{Backpressure: true}\n", Expect: "R09.10"},
 			{Name: "timeout-tested-as-canceled", File: "pkg/resource/value.go", Old: "\tif errors.Is(ctx.Err(), context.DeadlineExceeded) {\n\t\treturn nil, errors.New(\"bus.Send blocked for too long\")\n", New: "\tif errors.Is(ctx.Err(), context.Canceled) {\n\t\treturn nil, errors.New(\"bus.Send blocked for too long\")\n", Expect: "R09.4"},
 			{Name: "derived-request-drops-backpressure", File: "pkg/resource/collection.go", Old: "func (c *Collection) onUpdate(", New: "func derivedRequestForControl(rr *ReadRequest) *ReadRequest {\n\treturn &ReadRequest{ReadMask: rr.ReadMask, Include: rr.Include}\n}\n\nfunc (c *Collection) onUpdate(", Expect: "R09.8"},
@@ -68,6 +69,8 @@ func runC09(c *an.Ctx) {
 	c.Min("R09.13", 2)
 	r034(c, "R09.14") // what is announced is what was stored (shared with R03.4)
 	c.Min("R09.14", 2)
+	shareAs(c, "R10.5", "R09.15", r105, nil) // dead listeners are collected, live ones are kept: a subscriber that keeps receiving gets the most recent value (shared with R10.5)
+	c.Min("R09.15", 2)
 	r0911(c, "R09.11")
 	c.Min("R09.11", 3)
 }
@@ -543,7 +546,7 @@ func r094(c *an.Ctx) {
 					if iff, isIf := u.(*ssa.If); isIf {
 						for _, r := range an.Returns(set) {
 							if an.EdgeGuards(an.CondEdge{If: iff, Branch: true}, r) {
-								nonNil := true
+								nonNil := !provablyNilAt(r.Results[len(r.Results)-1], r) // (`return nil, err` with an err already tested nil is no error)
 								for _, v := range an.ValuesAt(r.Results[len(r.Results)-1]) {
 									if an.IsNilConst(v) {
 										nonNil = false
